@@ -665,6 +665,62 @@ L_ELEM = _lib_set(LIB['returns_element'])
 IMMUTABLE_STR_METHODS = {'format', 'join', 'strip', 'replace', 'lower', 'upper', 'lstrip', 'rstrip', 'decode', 'getvalue'}
 
 
+KPATH = 3
+
+
+def pext(path, step):
+    """path extended by one access step, k-limited"""
+    if path and path[-1] == '…':
+        return path
+    if step == '…':
+        return path + ('…',)
+    p = path + (step,)
+    if len(p) > KPATH:
+        return p[:KPATH] + ('…',)
+    return p
+
+
+def pcat(a, b):
+    for x in b:
+        a = pext(a, x)
+    return a
+
+
+def loc_match(e, q):
+    """may location e denote location q ('*' steps match anything, trailing '…' = any extension)"""
+    et, qt = e and e[-1] == '…', q and q[-1] == '…'
+    eb, qb = (e[:-1] if et else e), (q[:-1] if qt else q)
+    n = min(len(eb), len(qb))
+    if not all(_match(a, b) for a, b in zip(eb[:n], qb[:n])):
+        return False
+    if len(eb) == len(qb):
+        return True
+    if len(eb) < len(qb):
+        return bool(et)
+    return bool(qt)
+
+
+def loc_prefix(path, e):
+    """is location e strictly below `path` (or possibly below, with wildcards)"""
+    pt = path and path[-1] == '…'
+    pb = path[:-1] if pt else path
+    et = e and e[-1] == '…'
+    eb = e[:-1] if et else e
+    n = min(len(pb), len(eb))
+    if not all(_match(a, b) for a, b in zip(pb[:n], eb[:n])):
+        return False
+    if len(eb) > len(pb):
+        return True
+    return bool(et) or bool(pt)
+
+
+def pshow(p, path):
+    out = p
+    for x in path:
+        out += x if x in ('[]', '…') else '.' + x
+    return out
+
+
 class _Scope:
     """frame owner token for comprehensions / lambdas"""
     def __init__(self, parent):
@@ -738,6 +794,8 @@ class Interp:
         self.st.assigned[i].add(name)
 
     # ---- heap --------------------------------------------------------------------------------
+    # origin = (root, path); path = tuple of access steps (attribute name, '[]' element, '*' unknown), at most
+    # KPATH long, a trailing '…' = "anything below".  Edge (o2, epath) in C[root]: object o2 sits at root.epath.
     def ch(self, origins, step, seen=None):
         res = set()
         C = self.st.C
@@ -746,30 +804,17 @@ class Interp:
             if (o, step) in seen:
                 continue
             seen.add((o, step))
-            r, d, a = o
-            placeholder = r[0] in ('p', 'g')
-            if d == 0:
-                if placeholder:
-                    res.add((r, 1, step))
-                for (o2, via, dep, _) in C.get(r, ()):
-                    if dep == 1 and _match(via, step):
-                        res.add(o2)
-            elif d == 1:
-                if placeholder:
-                    res.add((r, 2, a))
-                for (o2, via, dep, _) in C.get(r, ()):
-                    if _match(via, a):
-                        if dep == 2:
-                            res.add(o2)
-                        else:
-                            res |= self.ch([o2], step, seen)
-            else:
-                if placeholder:
-                    res.add((r, 2, a))
-                for (o2, via, dep, _) in C.get(r, ()):
-                    if _match(via, a):
-                        res.add(o2)
+            r, path = o
+            target = pext(path, step)
+            if r[0] in ('p', 'g'):
+                res.add((r, target))
+            for (o2, epath, _) in C.get(r, ()):
+                if loc_match(epath, target):
+                    res.add(o2)
+                    if target[-1] == '…' or epath[-1] == '…':
                         res |= self.desc([o2])
+                elif path and path[-1] != '…' and loc_match(epath, path):
+                    res |= self.ch([o2], step, seen)      # o2 IS the object at root.path
         return frozenset(res)
 
     def desc(self, origins):
@@ -781,33 +826,37 @@ class Interp:
             if o in seen:
                 continue
             seen.add(o)
-            r, d, a = o
+            r, path = o
             if r[0] in ('p', 'g'):
-                res.add((r, 2, a if d else '*'))
-                if d == 0:
-                    res.add((r, 1, '*'))
-            for (o2, via, dep, _) in self.st.C.get(r, ()):
-                if d == 0 or _match(via, a):
+                res.add((r, pext(path, '…')))
+            for (o2, epath, _) in self.st.C.get(r, ()):
+                if loc_prefix(path, epath):
                     res.add(o2)
                     todo.append(o2)
         return frozenset(res)
 
-    def add_edge(self, root, origins, via, dep, why):
-        if root[0] == 's' and not origins:
+    def add_edge(self, root, origins, epath, why):
+        if not origins:
             return
         s = self.st.C.setdefault(root, set())
         for o in origins:
-            if o[0] == root and o[1] >= dep:
+            if o[0] == root and (len(o[1]) >= len(epath) or o[1] == epath):
                 continue
-            # keep the first provenance for a given edge
-            if not any(e[0] == o and e[1] == via and e[2] == dep for e in s):
-                s.add((o, via, dep, why))
+            if not any(e[0] == o and e[1] == epath for e in s):
+                s.add((o, epath, why))
+
+    def add_under(self, targets, step, values, why):
+        """values become reachable at <target>.step for every target origin"""
+        if not values:
+            return
+        for (r, path) in targets:
+            self.add_edge(r, values, pext(path, step), why)
 
     def edge_why(self, o):
-        """provenance strings of edges that lead to origin o (for witnesses)"""
+        """provenance strings of edges that lead to root of o (for witnesses)"""
         out = []
         for r, es in self.st.C.items():
-            for (o2, via, dep, why) in es:
+            for (o2, epath, why) in es:
                 if o2[0] == o[0] and why and why not in out:
                     out.append(why)
         return out[:2]
@@ -817,11 +866,11 @@ class Interp:
         return ('s', getattr(node, 'lineno', 0), getattr(node, 'col_offset', 0), tag)
 
     def mutate(self, origins, w, why=None):
-        for (r, d, a) in origins:
+        for (r, path) in origins:
             if r[0] == 'p':
-                key = (r[1], d, a)
+                key = (r[1], path)
                 if key not in self.S.mut:
-                    extra = tuple(self.edge_why((r, d, a))) if d else ()
+                    extra = tuple(self.edge_why((r, path))) if path else ()
                     if why:
                         extra = (why,) + extra
                     self.S.mut[key] = tuple(w) + tuple('alias: ' + x for x in extra if x)
@@ -830,15 +879,8 @@ class Interp:
         """tv.step = vv   (tv: AV of the container object)"""
         w = (self.site(node),)
         self.mutate(tv.o, w, tv.why)
-        vo = vv.o
-        if not vo:
-            return
-        why = self.site(node)
-        for (r, d, a) in tv.o:
-            if d == 0:
-                self.add_edge(r, vo, step, 1, why)
-            else:
-                self.add_edge(r, vo, a, 2, why)
+        if vv.o:
+            self.add_under(tv.o, step, vv.o, self.site(node))
 
     # ---- effects -----------------------------------------------------------------------------
     def raise_exc(self, exc, origin, tag, w):
@@ -885,7 +927,7 @@ class Interp:
             r = self.ix.resolve_expr_static(fi, d) if isinstance(d, (ast.Name, ast.Attribute)) else None
             if r and r[0] == 'class':
                 tags.add('class:' + r[1].cid)
-        return AV({(('p', name), 0, None)}, tags)
+        return AV({(('p', name), ())}, tags)
 
     def run(self):
         fi = self.fi
@@ -895,9 +937,9 @@ class Interp:
             for i, p in enumerate(fi.params):
                 self.setvar(p, self.param_av(fi, p, i))
             if fi.vararg:
-                self.setvar(fi.vararg, AV({(('p', fi.vararg), 0, None)}))
+                self.setvar(fi.vararg, AV({(('p', fi.vararg), ())}))
             if fi.kwarg:
-                self.setvar(fi.kwarg, AV({(('p', fi.kwarg), 0, None)}))
+                self.setvar(fi.kwarg, AV({(('p', fi.kwarg), ())}))
             for n, d in fi.defaults.items():
                 if isinstance(d, (ast.List, ast.Dict, ast.Set)):
                     self.S.mutable_default = getattr(self.S, 'mutable_default', set()) | {n}
@@ -910,18 +952,16 @@ class Interp:
 
     def finish(self):
         S = self.S
-        params = set(self.fi.params) | {self.fi.vararg, self.fi.kwarg}
         rets = self.returns
         for av, stC in rets:
             S.ret_types |= {t for t in av.t}
-            for (r, d, a) in av.o:
+            for (r, path) in av.o:
                 if r[0] == 'p':
-                    S.ret.add(('o', r[1], d, a))
+                    S.ret.add(('o', r[1], path))
                 elif r[0] == 's':
                     S.ret.add(('fresh',))
-                    for (o2, via, dep) in self._flatten(r, stC):
-                        S.ret_edges.add((o2[0][1], o2[1], o2[2], via, dep))
-        # captures: edges from parameter roots (use the join of all exit states = last state C union)
+                    for (o2, epath) in self._flatten(r, stC):
+                        S.ret_edges.add((o2[0][1], o2[1], epath))
         Cs = [c for _, c in rets]
         if self.st is not None:
             Cs.append(self.st.C)
@@ -929,32 +969,29 @@ class Interp:
             for r, es in C.items():
                 if r[0] != 'p':
                     continue
-                for (o2, via, dep, _) in es:
+                for (o2, epath, _) in es:
                     if o2[0][0] == 'p':
-                        if o2[0] == r and o2[1] >= dep:
-                            continue
-                        S.capture.setdefault(r[1], set()).add((o2[0][1], o2[1], o2[2], via, dep))
+                        S.capture.setdefault(r[1], set()).add((o2[0][1], o2[1], epath))
                     elif o2[0][0] == 's':
-                        for (o3, via3, dep3) in self._flatten(o2[0], C):
-                            S.capture.setdefault(r[1], set()).add((o3[0][1], o3[1], o3[2], via, 2))
+                        for (o3, epath3) in self._flatten(o2[0], C):
+                            S.capture.setdefault(r[1], set()).add((o3[0][1], o3[1], pcat(epath, epath3)))
 
     def _flatten(self, root, C):
-        """parameter origins reachable from a fresh root: [(origin, via, dep)]"""
+        """parameter origins reachable from a fresh root: [(origin, location path under root)]"""
         out = set()
         seen = set()
-        todo = [(root, None, 0)]
+        todo = [(root, ())]
         while todo:
-            r, via0, dep0 = todo.pop()
-            if (r, via0) in seen:
+            r, pre = todo.pop()
+            if (r, pre) in seen:
                 continue
-            seen.add((r, via0))
-            for (o2, via, dep, _) in C.get(r, ()):
-                v = via0 if via0 is not None else via
-                dd = min(2, dep0 + dep)
+            seen.add((r, pre))
+            for (o2, epath, _) in C.get(r, ()):
+                loc = pcat(pre, epath)
                 if o2[0][0] == 'p':
-                    out.add((o2, v, dd))
-                elif o2[0][0] == 's':
-                    todo.append((o2[0], v, dd))
+                    out.add((o2, loc))
+                elif o2[0][0] == 's' and o2[0] != r:
+                    todo.append((o2[0], loc))
         return out
 
     def block(self, stmts, acc=None):
@@ -1210,8 +1247,7 @@ class Interp:
                 self.setvar(t.id, AV(frozenset(), cur.t & {'str'}))
             else:
                 self.mutate(cur.o, (self.site(s),), cur.why)
-                for (r, d, a) in cur.o:
-                    self.add_edge(r, self.ch(vv.o, '[]'), '[]' if d == 0 else a, 1 if d == 0 else 2, self.site(s))
+                self.add_under(cur.o, '[]', self.ch(vv.o, '[]'), self.site(s))
                 self.setvar(t.id, cur)
         elif isinstance(t, ast.Attribute):
             tv = self.ev(t.value)
@@ -1559,8 +1595,8 @@ class Interp:
         self.ev(e.slice)
         if isinstance(e.slice, ast.Slice):
             s = self.fresh(e, 'slice')
-            self.add_edge(s, self.ch(b.o, '[]'), '[]', 1, self.site(e))
-            return AV({(s, 0, None)}, b.t & {'list', 'str'})
+            self.add_edge(s, self.ch(b.o, '[]'), ('[]',), self.site(e))
+            return AV({(s, ())}, b.t & {'list', 'str'})
         # visible dict with a non-constant key: KeyError unless guarded by `key in dict`
         if 'dictlit' in b.t and not isinstance(e.slice, ast.Constant) and isinstance(e.ctx, ast.Load):
             fact = (ast.dump(e.slice), ast.dump(e.value))
@@ -1581,9 +1617,9 @@ class Interp:
             v = self.ev(x)
             if isinstance(x, ast.Starred):
                 pass
-            self.add_edge(s, v.o, '[]', 1, None)
+            self.add_edge(s, v.o, ('[]',), None)
             tags |= {t for t in v.t if t.startswith('func:')}
-        return AV({(s, 0, None)}, tags)
+        return AV({(s, ())}, tags)
 
     def e_List(self, e):
         return self._container(e, e.elts, 'list')
@@ -1601,9 +1637,9 @@ class Interp:
             if k is not None:
                 self.ev(k)
             vv = self.ev(v)
-            self.add_edge(s, vv.o, '[]', 1, None)
+            self.add_edge(s, vv.o, ('[]',), None)
             tags |= {t for t in vv.t if t.startswith('func:')}
-        return AV({(s, 0, None)}, tags)
+        return AV({(s, ())}, tags)
 
     def _comp(self, e, elts, tag):
         self.st.frames.append({})
@@ -1619,12 +1655,12 @@ class Interp:
         s = self.fresh(e, tag)
         for x in elts:
             v = self.ev(x)
-            self.add_edge(s, v.o, '[]', 1, None)
+            self.add_edge(s, v.o, ('[]',), None)
         self.st.frames.pop()
         self.st.assigned.pop()
         self.fowner.pop()
         self.nonlocals.pop()
-        return AV({(s, 0, None)}, {tag})
+        return AV({(s, ())}, {tag})
 
     def e_ListComp(self, e):
         return self._comp(e, [e.elt], 'list')
@@ -1647,8 +1683,8 @@ class Interp:
         if not l.o and not r.o:
             return AV(t=(l.t | r.t) & {'str', 'list'})
         s = self.fresh(e, 'binop')
-        self.add_edge(s, self.ch(l.o, '[]') | self.ch(r.o, '[]'), '[]', 1, None)
-        return AV({(s, 0, None)}, (l.t | r.t) & {'str', 'list'})
+        self.add_edge(s, self.ch(l.o, '[]') | self.ch(r.o, '[]'), ('[]',), None)
+        return AV({(s, ())}, (l.t | r.t) & {'str', 'list'})
 
     def e_UnaryOp(self, e):
         self.ev(e.operand)
@@ -1691,16 +1727,16 @@ class Interp:
         v = self.ev(e.value) if e.value is not None else EMPTY
         if self.st is not None and not self.retstack:
             s = ('s', 0, 0, 'gen')
-            self.add_edge(s, v.o, '[]', 1, None)
-            self.returns.append((AV({(s, 0, None)}, {'gen:' + self.fi.fid}), {k: set(x) for k, x in self.st.C.items()}))
+            self.add_edge(s, v.o, ('[]',), None)
+            self.returns.append((AV({(s, ())}, {'gen:' + self.fi.fid}), {k: set(x) for k, x in self.st.C.items()}))
         return EMPTY
 
     def e_YieldFrom(self, e):
         v = self.ev(e.value)
         if self.st is not None and not self.retstack:
             s = ('s', 0, 0, 'gen')
-            self.add_edge(s, self.ch(v.o, '[]'), '[]', 1, None)
-            self.returns.append((AV({(s, 0, None)}, {'gen:' + self.fi.fid}), {k: set(x) for k, x in self.st.C.items()}))
+            self.add_edge(s, self.ch(v.o, '[]'), ('[]',), None)
+            self.returns.append((AV({(s, ())}, {'gen:' + self.fi.fid}), {k: set(x) for k, x in self.st.C.items()}))
         return EMPTY
 
     def e_Await(self, e):
@@ -1715,3 +1751,1252 @@ class Interp:
                         self.nondet('default-repr:' + ci.name, self.origin_id(),
                                     (self.site(node, 'formats a {} object (no __str__/__repr__/__format__: prints the address): {}'.format(
                                         ci.name, self.ix.line(self.cur.rel, node.lineno)[:70])),))
+
+    # ---- calls -----------------------------------------------------------------------------------
+    def e_Call(self, e):
+        f = e.func
+        # evaluate arguments
+        argvals, star = [], []
+        for a in e.args:
+            if isinstance(a, ast.Starred):
+                v = self.ev(a.value)
+                star.append(AV(self.ch(v.o, '[]'), {t for t in v.t if t.startswith('func:')}, v.why))
+            else:
+                argvals.append(self.ev(a))
+        kwvals, kwstar = {}, []
+        for k in e.keywords:
+            v = self.ev(k.value)
+            if k.arg is None:
+                kwstar.append(AV(self.ch(v.o, '[]'), set(), v.why))
+            else:
+                kwvals[k.arg] = v
+        if self.st is None:
+            return EMPTY
+        targets = self.targets(f, e)
+        result = None
+        skip_closure = False
+        for t in targets:
+            if t[0] == 'ext' and t[1] in ('method:add_argument',):
+                skip_closure = True
+            r = self.apply_target(t, e, argvals, kwvals, star, kwstar)
+            if r is not None:
+                result = r if result is None else result.join(r)
+            if self.st is None:
+                break
+        # function values passed as arguments are charged here (the callee may call them)
+        if not skip_closure and self.st is not None:
+            allv = argvals + list(kwvals.values()) + star
+            others = EMPTY
+            for v in allv:
+                others = others.join(AV(self.ch(v.o, '[]') | v.o))
+            for v in allv:
+                for tag in sorted(v.t):
+                    if tag.startswith('func:') or tag.startswith('lambda:'):
+                        self.call_function_value(tag, e, others)
+        return result if result is not None else EMPTY
+
+    def call_function_value(self, tag, node, argav):
+        if tag.startswith('lambda:'):
+            lam = self.A.lambdas.get(tag)
+            if lam is not None:
+                self.inline_lambda(lam, [argav] * len(lam.args.args))
+            return
+        g = self.ix.funcs.get(tag[5:])
+        if g is None:
+            return
+        if g.parent is not None and g.cls is None and g.fid not in self.inl and self._parent_on_stack(g):
+            self.inline(g, {p: argav for p in g.params}, node)
+        else:
+            argmap = {p: argav for p in g.params}
+            self.apply_summary(g, argmap, node, note='passes function ')
+
+    def _parent_on_stack(self, g):
+        return any(o is g.parent for o in self.fowner)
+
+    def _enclosing_class(self):
+        f = self.cur
+        while f is not None:
+            if f.cls is not None:
+                return f.cls
+            f = f.parent
+        return None
+
+    def targets(self, f, call):
+        ix = self.ix
+        out = []
+        if isinstance(f, ast.Name):
+            v = self.lookup(f.id)
+            if v is None:
+                v = self.av_of_resolved(ix.resolve_in_func(self.cur, f.id), f)
+            return self.targets_of_value(v, f.id)
+        if isinstance(f, ast.Attribute):
+            attr = f.attr
+            # super().m(...)
+            if isinstance(f.value, ast.Call) and isinstance(f.value.func, ast.Name) and f.value.func.id == 'super':
+                ci = self._enclosing_class()
+                selfav = self.lookup(self.cur.params[0]) if self.cur.params else EMPTY
+                if ci is not None:
+                    m = ix.lookup_method(ci, attr, after=ci)
+                    if m is not None:
+                        return [('repo', m, selfav, True)]
+                return [('ext', 'super.' + attr, selfav)]
+            b = self.ev(f.value)
+            handled = False
+            for t in sorted(b.t):
+                if t.startswith('mod:'):
+                    d = t[4:]
+                    r = ix.resolve_global(ix.mods[d], attr)
+                    out += self.targets_of_value(self.av_of_resolved(r, f), attr)
+                    handled = True
+                elif t.startswith('ext:'):
+                    out.append(('ext', t[4:] + '.' + attr, None))
+                    handled = True
+                elif t.startswith('class:'):
+                    ci = ix.classes.get(t[6:])
+                    m = ix.lookup_method(ci, attr) if ci else None
+                    if m is not None:
+                        if m.kind == 'classmethod':
+                            out.append(('repo', m, AV(t={'class:' + ci.cid}), True))
+                        elif m.kind == 'staticmethod':
+                            out.append(('repo', m, None, False))
+                        else:
+                            out.append(('repo', m, None, False))     # Class.method(self, ...)
+                        handled = True
+                    elif ci is not None:
+                        out.append(('ext', 'extclass.' + attr, None))
+                        handled = True
+                elif t.startswith(('cls:', 'sub:')):
+                    ci = ix.classes.get(t[4:])
+                    if ci is None:
+                        continue
+                    ms = []
+                    m = ix.lookup_method(ci, attr)
+                    if m is not None:
+                        ms.append(m)
+                    if t.startswith('sub:'):
+                        ms += ix.overriding(ci, attr)
+                    for m in ms:
+                        if m.is_abstract and len(ms) > 1:
+                            continue
+                        out.append(('repo', m, b if m.kind == 'method' else
+                                    (AV(t={'class:' + ci.cid}) if m.kind == 'classmethod' else None), m.kind != 'staticmethod'))
+                    if ms:
+                        handled = True
+                    elif attr in LIB['mutator_methods'] or ix.attr_types(ci, attr):
+                        pass
+                    else:
+                        # method of an external base class (argparse.Action...) or attribute holding a callable
+                        handled = handled or bool(ix.ext_bases(ci) and not ix.methods_by_name.get(attr))
+                        if handled:
+                            out.append(('ext', 'method:' + attr, b))
+                elif t in ('set', 'list', 'dict', 'str', 'tuple', 'genexp', 'dictlit'):
+                    out.append(('ext', 'method:' + attr, b))
+                    handled = True
+                elif t.startswith('extobj:'):
+                    out.append(('ext', 'method:' + attr, b))
+                    handled = True
+            if handled:
+                return out
+            # receiver of unknown type: dispatch by method name over the repository classes
+            if attr in ('parse_args', 'parse_known_args'):
+                return [('parse_args', b)]
+            cands = ix.methods_by_name.get(attr, [])
+            builtin = attr in LIB['mutator_methods'] or _lib_in('method:' + attr, L_PURE) or \
+                _lib_in('method:' + attr, L_ELEM) or _lib_in('method:' + attr, L_SHALLOW)
+            for m in cands:
+                out.append(('repo', m, b if m.kind == 'method' else
+                            (AV(t={'class:' + m.cls.cid}) if m.kind == 'classmethod' else None), m.kind != 'staticmethod'))
+            if builtin or not cands:
+                out.append(('ext', 'method:' + attr, b))
+            return out
+        # call of a call result / subscript ...: evaluate the callee expression
+        v = self.ev(f)
+        return self.targets_of_value(v, ast.unparse(f)[:40])
+
+    def targets_of_value(self, v, label):
+        out = []
+        ix = self.ix
+        for t in sorted(v.t):
+            if t.startswith('func:'):
+                g = ix.funcs.get(t[5:])
+                if g is not None:
+                    out.append(('repo', g, None, False))
+            elif t.startswith('bound:'):
+                g = ix.funcs.get(t[6:])
+                if g is not None:
+                    out.append(('repo', g, EMPTY, g.kind != 'staticmethod'))
+            elif t.startswith('class:'):
+                ci = ix.classes.get(t[6:])
+                if ci is not None:
+                    out.append(('ctor', ci))
+            elif t.startswith('lambda:'):
+                out.append(('lambda', t))
+            elif t.startswith('ext:'):
+                out.append(('ext', t[4:], None))
+            elif t.startswith(('cls:', 'sub:')):
+                ci = ix.classes.get(t[4:])
+                m = ix.lookup_method(ci, '__call__') if ci else None
+                if m is not None:
+                    out.append(('repo', m, v, True))
+        if not out:
+            out.append(('unknown', label, None))
+        return out
+
+    def bind(self, g, recv, bound_first, argvals, kwvals, star, kwstar):
+        params = list(g.params)
+        argmap = {}
+        pos = params[:g.npos] if hasattr(g, 'npos') else params
+        i = 0
+        if bound_first and pos:
+            argmap[pos[0]] = recv if recv is not None else EMPTY
+            i = 1
+        rest = pos[i:]
+        for j, v in enumerate(argvals):
+            if j < len(rest):
+                argmap[rest[j]] = v
+            elif g.vararg:
+                argmap[g.vararg] = v.join(argmap.get(g.vararg))
+        for k, v in kwvals.items():
+            if k in params:
+                argmap[k] = v
+            elif g.kwarg:
+                argmap[g.kwarg] = v.join(argmap.get(g.kwarg))
+        for v in star:
+            for p in rest[len(argvals):]:
+                if p not in argmap:
+                    argmap[p] = v
+            if g.vararg:
+                argmap[g.vararg] = v.join(argmap.get(g.vararg))
+        for v in kwstar:
+            for p in params:
+                if p not in argmap:
+                    argmap[p] = v
+        return argmap
+
+    def apply_target(self, t, node, argvals, kwvals, star, kwstar):
+        kind = t[0]
+        if kind == 'repo':
+            g, recv, bound = t[1], t[2], t[3]
+            argmap = self.bind(g, recv, bound, argvals, kwvals, star, kwstar)
+            if g.parent is not None and g.cls is None and self._parent_on_stack(g) and g.fid not in self.inl:
+                return self.inline(g, argmap, node)
+            return self.apply_summary(g, argmap, node)
+        if kind == 'ctor':
+            ci = t[1]
+            s = self.fresh(node, 'new ' + ci.name)
+            selfav = AV({(s, ())}, {'cls:' + ci.cid})
+            init = self.ix.lookup_method(ci, '__init__')
+            if init is not None:
+                argmap = self.bind(init, selfav, True, argvals, kwvals, star, kwstar)
+                self.apply_summary(init, argmap, node)
+            else:
+                for v in argvals + list(kwvals.values()) + star + kwstar:
+                    self.add_edge(s, v.o, ('*',), None)
+            if self.ix.is_exception_class(ci):
+                return AV({(s, ())}, {'cls:' + ci.cid, 'exc:' + ci.name})
+            return selfav
+        if kind == 'lambda':
+            lam = self.A.lambdas.get(t[1])
+            if lam is None:
+                return EMPTY
+            return self.inline_lambda(lam, argvals + star)
+        if kind == 'parse_args':
+            return self.do_parse_args(node, t[1])
+        if kind == 'unknown':
+            # call through a function-valued parameter / unknown callable: charged to whoever passes it
+            self.A.note_unknown(self.cur.fid, t[1])
+            return self.unknown_result(node, None, argvals + list(kwvals.values()) + star + kwstar)
+        if kind == 'ext':
+            return self.apply_ext(t[1], t[2], node, argvals, kwvals, star, kwstar)
+        return EMPTY
+
+    # ---- summaries ---------------------------------------------------------------------------------
+    def locate(self, av, path):
+        if av is None:
+            return frozenset()
+        cur = av.o
+        for step in path:
+            if not cur:
+                break
+            if step == '…':
+                cur = cur | self.desc(cur)
+                break
+            cur = self.ch(cur, step)
+        return cur
+
+    def apply_summary(self, g, argmap, node, note='calls '):
+        summ = self.A.summary(g)
+        self.S.callees.add(g.fid)
+        w0 = self.site(node, '{}{} <- {}'.format(note, g.qual, self.ix.line(self.cur.rel, node.lineno)[:70]))
+        # frames
+        for (p, path), w in summ.mut.items():
+            av = argmap.get(p)
+            if av is None or not av.o:
+                continue
+            tg = self.locate(av, path)
+            if tg:
+                self.mutate(tg, (w0,) + tuple(w), av.why)
+        for p, caps in summ.capture.items():
+            pv = argmap.get(p)
+            if pv is None or not pv.o:
+                continue
+            for (q, qpath, epath) in caps:
+                qv = argmap.get(q)
+                if qv is None or not qv.o:
+                    continue
+                qo = self.locate(qv, qpath)
+                if not qo:
+                    continue
+                for (r, rpath) in pv.o:
+                    self.add_edge(r, qo, pcat(rpath, epath), w0)
+        # exceptions
+        for (exc, origin, tag), w in summ.raises.items():
+            self.raise_exc(exc, origin, tag, (w0,) + tuple(w))
+            if self.st is None:
+                break
+        # rng
+        if summ.seeds_rng and self.S.seeds_rng is None:
+            self.S.seeds_rng = (w0,) + tuple(summ.seeds_rng)
+        if summ.uses_rng:
+            self.use_rng(g.qual, (w0,) + tuple(summ.uses_rng))
+        for (src, origin), w in summ.nondet.items():
+            self.nondet(src, origin, (w0,) + tuple(w))
+        if summ.calls_parse_args and self.S.calls_parse_args is None:
+            self.S.calls_parse_args = (w0,) + tuple(summ.calls_parse_args)
+        self.S.registers |= summ.registers
+        self.S.validators |= summ.validators
+        # result
+        res_o = set()
+        for r in summ.ret:
+            if r[0] == 'o':
+                res_o |= self.locate(argmap.get(r[1]), r[2])
+        tags = set(summ.ret_types)
+        if ('fresh',) in summ.ret or g.is_gen:
+            s = self.fresh(node, 'result of ' + g.name)
+            for (q, qpath, epath) in summ.ret_edges:
+                qo = self.locate(argmap.get(q), qpath)
+                self.add_edge(s, qo, epath, w0)
+            res_o.add((s, ()))
+        if g.is_gen and not g.is_ctx:
+            tags.add('gen:' + g.fid)
+        return AV(res_o, tags, None)
+
+    def inline(self, g, argmap, node):
+        """interpret a nested function at its call site, in the current (lexically enclosing) environment"""
+        if len(self.inl) > 6:
+            return EMPTY
+        self.inl.append(g.fid)
+        self.st.frames.append({})
+        self.st.assigned.append(set())
+        self.fowner.append(g)
+        self.nonlocals.append(set())
+        oldcur, self.cur = self.cur, g
+        for p in g.params:
+            self.setvar(p, argmap.get(p, EMPTY))
+        if g.vararg:
+            self.setvar(g.vararg, argmap.get(g.vararg, EMPTY))
+        if g.kwarg:
+            self.setvar(g.kwarg, argmap.get(g.kwarg, EMPTY))
+        self.retstack.append([])
+        oldloops, self.loops = self.loops, []
+        self.block(g.node.body)
+        self.loops = oldloops
+        rets = self.retstack.pop()
+        out_state = self.st
+        res = EMPTY
+        for av, stt in rets:
+            res = res.join(av)
+            out_state = join_states(out_state, stt)
+        self.st = out_state
+        self.cur = oldcur
+        self.nonlocals.pop()
+        self.fowner.pop()
+        self.inl.pop()
+        if self.st is not None:
+            self.st.frames.pop()
+            self.st.assigned.pop()
+        if g.is_gen:
+            res = AV(res.o, res.t | {'gen:' + g.fid})
+        return res
+
+    def inline_lambda(self, lam, argvals):
+        if len(self.inl) > 6 or self.st is None:
+            return EMPTY
+        self.inl.append('lambda')
+        self.st.frames.append({})
+        self.st.assigned.append(set())
+        self.fowner.append(_Scope(self.fowner[-1]))
+        self.nonlocals.append(set())
+        for i, a in enumerate(lam.args.args):
+            self.setvar(a.arg, argvals[i] if i < len(argvals) else EMPTY)
+        res = self.ev(lam.body)
+        self.nonlocals.pop()
+        self.fowner.pop()
+        self.inl.pop()
+        if self.st is not None:
+            self.st.frames.pop()
+            self.st.assigned.pop()
+        return res
+
+    # ---- argparse ----------------------------------------------------------------------------------
+    def do_parse_args(self, node, recv):
+        w0 = self.site(node, 'parse_args <- ' + self.ix.line(self.cur.rel, node.lineno)[:70])
+        if self.S.calls_parse_args is None:
+            self.S.calls_parse_args = (w0,)
+        for exc in LIB['raises']['<parse_args>']:
+            self.raise_exc(exc, 'argparse:parse_args', '', (w0 + '  [argparse: -h / --version exit]',))
+        # parser.error of the repository parser class (CLIParser.error raises CLIError)
+        for m in self.ix.methods_by_name.get('error', []):
+            self.apply_summary(m, {}, node, note='argparse reports errors through ')
+        ctx = self.A.ctx_actions
+        if ctx is not None:
+            for cid in sorted(ctx):
+                ci = self.ix.classes.get(cid)
+                m = self.ix.lookup_method(ci, '__call__') if ci else None
+                if m is None:
+                    continue
+                summ = self.A.summary(m)
+                self.S.callees.add(m.fid)
+                w1 = '{}  [argparse runs the registered action {}.__call__]'.format(w0, ci.name)
+                for (exc, origin, tag), w in summ.raises.items():
+                    if exc == 'ArgumentError':
+                        continue        # argparse converts ArgumentError into parser.error
+                    self.raise_exc(exc, origin, tag, (w1,) + tuple(w))
+                if summ.uses_rng:
+                    self.use_rng('parse_args', (w1,) + tuple(summ.uses_rng))
+                for (src, origin), w in summ.nondet.items():
+                    self.nondet(src, origin, (w1,) + tuple(w))
+            for fid in sorted(self.A.ctx_validators or ()):
+                g = self.ix.funcs.get(fid)
+                if g is None:
+                    continue
+                summ = self.A.summary(g)
+                for (exc, origin, tag), w in summ.raises.items():
+                    if any(exc_is_sub(exc, h) for h in ('ArgumentTypeError', 'TypeError', 'ValueError', 'ArgumentError')):
+                        continue        # argparse converts these into parser.error
+                    self.raise_exc(exc, origin, tag, ('{}  [argparse calls the type= validator {}]'.format(w0, g.qual),) + tuple(w))
+                if summ.uses_rng:
+                    self.use_rng('parse_args', (w0,) + tuple(summ.uses_rng))
+        s = self.fresh(node, 'namespace')
+        return AV({(s, ())}, set())
+
+    def do_add_argument(self, node, kwvals):
+        for k in node.keywords:
+            if k.arg == 'action' and not isinstance(k.value, ast.Constant):
+                v = kwvals.get('action', EMPTY)
+                found = False
+                for t in v.t:
+                    if t.startswith('class:'):
+                        ci = self.ix.classes.get(t[6:])
+                        if ci is not None and self.ix.is_action_class(ci):
+                            self.S.registers.add(ci.cid)
+                            found = True
+                if not found:
+                    self.S.registers.add('?unresolved:{}:{}:{}'.format(self.cur.rel, node.lineno, ast.unparse(k.value)[:40]))
+            if k.arg == 'type' and not isinstance(k.value, ast.Constant):
+                v = kwvals.get('type', EMPTY)
+                for t in v.t:
+                    if t.startswith('func:'):
+                        self.S.validators.add(t[5:])
+
+    # ---- library -----------------------------------------------------------------------------------
+    def unknown_result(self, node, recv, allargs):
+        s = self.fresh(node, 'lib')
+        for v in ([recv] if recv is not None else []) + allargs:
+            if v is None or not v.o:
+                continue
+            self.add_edge(s, v.o, ('*',), None)
+            c = self.ch(v.o, '*')
+            self.add_edge(s, c, ('*',), None)
+            self.add_edge(s, c, ('*', '*'), None)
+        if s in self.st.C:
+            return AV({(s, ())})
+        return EMPTY
+
+    def apply_ext(self, name, recv, node, argvals, kwvals, star, kwstar):
+        allargs = argvals + list(kwvals.values()) + star + kwstar
+        w = (self.site(node),)
+        self.A.lib_seen.add(name)
+        meth = name[7:] if name.startswith('method:') else None
+        # --- argparse registration
+        if meth == 'add_argument':
+            self.do_add_argument(node, kwvals)
+            return EMPTY
+        # --- RNG
+        if _lib_in(name, L_RNG_SEED):
+            self.st.seeded = True
+            if self.S.seeds_rng is None:
+                self.S.seeds_rng = w
+        elif _lib_in(name, L_RNG_USE):
+            self.use_rng(name, w)
+        # --- nondeterministic sources
+        if _lib_in(name, L_NONDET):
+            if name == 'tempfile.NamedTemporaryFile':
+                pass          # file *name* only matters if it reaches the output; tracked by the tempfile typestate
+            else:
+                self.nondet(name, self.origin_id(), w)
+        # --- printing / formatting an object with the default repr
+        if name in ('builtins.str', 'builtins.print', 'builtins.format', 'builtins.repr', 'method:format'):
+            self.check_repr(allargs, node)
+        # --- exceptions
+        for exc in LIB['raises'].get(name, ()):
+            if name in ('builtins.max', 'builtins.min') and (len(argvals) != 1 or kwvals.get('default') is not None):
+                continue
+            if name == 'builtins.next':
+                if len(argvals) + len(kwvals) > 1:
+                    continue
+                if not self.next_may_stop(node, argvals):
+                    continue
+            if name == 'method:remove' and recv is not None and 'set' in recv.t:
+                exc = 'KeyError'
+            self.raise_exc(exc, self.origin_id(), '', w)
+            if self.st is None:
+                return EMPTY
+        if name == 'random.sample' and argvals and ({'genexp', 'set'} & argvals[0].t):
+            self.raise_exc('TypeError', self.origin_id(), '', (self.site(node, 'random.sample on a {} (TypeError on python >= 3.11): {}'.format(
+                '/'.join(sorted({'genexp', 'set'} & argvals[0].t)), self.ix.line(self.cur.rel, node.lineno)[:60])),))
+        if name == 'builtins.next' and argvals:
+            for t in argvals[0].t:
+                if t.startswith('gen:'):
+                    self.consume_gen(t[4:], node)
+        if name in ('builtins.list', 'builtins.tuple', 'builtins.sorted', 'builtins.set', 'builtins.sum', 'builtins.max',
+                    'builtins.min', 'builtins.any', 'builtins.all', 'builtins.dict', 'builtins.enumerate', 'builtins.zip',
+                    'method:join', 'method:extend', 'method:update', 'builtins.frozenset') or name.startswith('itertools.'):
+            for v in argvals + star:
+                for t in v.t:
+                    if t.startswith('gen:'):
+                        self.consume_gen(t[4:], node)
+                if 'set' in v.t and name not in ('builtins.sorted', 'builtins.set', 'builtins.frozenset', 'builtins.sum',
+                                                 'builtins.max', 'builtins.min', 'builtins.any', 'builtins.all', 'builtins.len'):
+                    self.nondet('set-iteration', self.origin_id(), w)
+        # --- temp files
+        if name == 'tempfile.NamedTemporaryFile':
+            d = [k for k in node.keywords if k.arg == 'delete']
+            if d and isinstance(d[0].value, ast.Constant) and d[0].value.value is False:
+                return AV(t={'tmpfile'})
+            return EMPTY
+        if name in ('os.unlink', 'os.remove') and node.args:
+            a = node.args[0]
+            if isinstance(a, ast.Attribute) and a.attr == 'name' and isinstance(a.value, ast.Name) and a.value.id in self.st.tmp:
+                self.st.tmp[a.value.id] = ('gone', self.st.tmp[a.value.id][1])
+            return EMPTY
+        # --- mutation
+        if meth is not None and meth in LIB['mutator_methods'] and recv is not None:
+            stored = LIB['mutator_methods'][meth]
+            self.mutate(recv.o, w, recv.why)
+            vals = frozenset()
+            if stored == 'all':
+                for v in allargs:
+                    vals |= self.ch(v.o, '[]')
+            elif stored is not None and stored < len(argvals):
+                vals = argvals[stored].o
+            if vals:
+                self.add_under(recv.o, '[]', vals, self.site(node))
+        if name in LIB['mutator_functions']:
+            mi, si = LIB['mutator_functions'][name]
+            if mi < len(argvals):
+                tv = argvals[mi]
+                if name == 'builtins.setattr' and len(node.args) >= 3:
+                    step = node.args[1].value if isinstance(node.args[1], ast.Constant) else '*'
+                    self.store(tv, step, argvals[2], node)
+                else:
+                    self.mutate(tv.o, w, tv.why)
+                    if si is not None and si < len(argvals):
+                        self.add_under(tv.o, '[]', argvals[si].o, self.site(node))
+        # --- result
+        if _lib_in(name, L_PURE):
+            if meth in IMMUTABLE_STR_METHODS or name in ('builtins.str', 'builtins.repr', 'builtins.format'):
+                return AV(t={'str'})
+            if meth in ('split', 'splitlines', 'readlines'):
+                return AV(t={'list'})
+            return EMPTY
+        if _lib_in(name, L_DEEP):
+            s = self.fresh(node, 'deepcopy')
+            return AV({(s, ())})
+        if _lib_in(name, L_SHALLOW):
+            s = self.fresh(node, 'copy')
+            src = [recv] if meth == 'copy' and recv is not None else allargs
+            for v in src:
+                if v is not None:
+                    self.add_edge(s, self.ch(v.o, '[]'), ('[]',), None)
+            tag = {'builtins.list': 'list', 'builtins.sorted': 'list', 'builtins.tuple': 'tuple', 'builtins.set': 'set',
+                   'builtins.frozenset': 'set', 'builtins.dict': 'dict', 'collections.OrderedDict': 'dict'}.get(name)
+            tags = {tag} if tag else set()
+            if name in ('builtins.iter',) and src and src[0] is not None:
+                tags |= {t for t in src[0].t if t.startswith('gen:')}
+            return AV({(s, ())}, tags)
+        if _lib_in(name, L_ELEM):
+            o = set()
+            if name == 'builtins.getattr' and len(node.args) >= 2 and argvals:
+                step = node.args[1].value if isinstance(node.args[1], ast.Constant) else '*'
+                o |= self.ch(argvals[0].o, step)
+                for v in argvals[2:]:
+                    o |= v.o
+            else:
+                for v in ([recv] if recv is not None else []) + allargs:
+                    o |= self.ch(v.o, '[]')
+                    if name in ('builtins.min', 'builtins.max', 'method:get', 'method:setdefault') and v is not recv:
+                        o |= v.o
+            tags = set()
+            if recv is not None:
+                tags |= {t for t in recv.t if t.startswith('func:')}
+            return AV(o, tags, recv.why if recv is not None else None)
+        if name == 'builtins.open':
+            return AV(t={'file'})
+        if name == 'builtins.super':
+            return EMPTY
+        # unknown library callee: arguments not mutated, result may contain them
+        if not (name in LIB['raises'] or name in LIB['mutator_functions'] or (meth and meth in LIB['mutator_methods'])
+                or _lib_in(name, L_RNG_USE) or _lib_in(name, L_RNG_SEED) or _lib_in(name, L_NONDET)):
+            self.A.lib_default.add(name)
+        return self.unknown_result(node, recv, allargs)
+
+    def next_may_stop(self, node, argvals):
+        """next(g): StopIteration only if the generator can finish after fewer yields than consumed so far"""
+        a = node.args[0] if node.args else None
+        gens = [t[4:] for t in (argvals[0].t if argvals else ()) if t.startswith('gen:')]
+        if not gens or not isinstance(a, ast.Name):
+            return True
+        k = self.st.nextcnt.get(a.id, 0) + 1
+        if self.in_loop:
+            k = 99
+        self.st.nextcnt[a.id] = k
+        for fid in gens:
+            g = self.ix.funcs.get(fid)
+            if g is None or self.A.min_yields(g) < k:
+                return True
+        return False
+
+
+# ==================================================================================================
+# generators: least number of yields before a normal finish (for next() -> StopIteration)
+# ==================================================================================================
+class YieldPaths:
+    CAP = 3
+
+    def __init__(self, g):
+        self.g = g
+
+    def run(self):
+        res = self.blk(self.g.node.body, {(frozenset(), 0)})
+        ends = res['fall'] | res['return']
+        return min([c for _, c in ends], default=99)
+
+    def blk(self, stmts, states):
+        out = {'return': set(), 'break': set(), 'continue': set()}
+        cur = set(states)
+        for s in stmts:
+            if not cur:
+                break
+            nxt = set()
+            for (env, cnt) in cur:
+                for kind, env2, cnt2 in self.st(s, dict(env), cnt):
+                    if kind == 'fall':
+                        nxt.add((frozenset(env2.items()), cnt2))
+                    elif kind != 'raise':
+                        out[kind].add((frozenset(env2.items()), cnt2))
+            cur = nxt
+        out['fall'] = cur
+        return out
+
+    def nyields(self, node):
+        n = 0
+        for x in ast.walk(node):
+            if isinstance(x, ast.Yield):
+                n += 1
+        return n
+
+    def truth(self, t, env):
+        if isinstance(t, ast.Constant):
+            return bool(t.value)
+        if isinstance(t, ast.Name):
+            v = env.get(t.id)
+            if v is None:
+                return None
+            return False if v == ('empty',) else bool(v[1])
+        if isinstance(t, ast.UnaryOp) and isinstance(t.op, ast.Not):
+            r = self.truth(t.operand, env)
+            return None if r is None else not r
+        if isinstance(t, ast.BoolOp):
+            rs = [self.truth(v, env) for v in t.values]
+            if isinstance(t.op, ast.And):
+                if any(r is False for r in rs):
+                    return False
+                return True if all(r is True for r in rs) else None
+            if any(r is True for r in rs):
+                return True
+            return False if all(r is False for r in rs) else None
+        if isinstance(t, ast.Compare) and len(t.ops) == 1:
+            l, op, r = t.left, t.ops[0], t.comparators[0]
+            lv, rv = self.val(l, env), self.val(r, env)
+            if lv is None or rv is None:
+                return None
+            lv, rv = lv[0], rv[0]
+            try:
+                if isinstance(op, ast.Is):
+                    return lv is rv
+                if isinstance(op, ast.IsNot):
+                    return lv is not rv
+                if isinstance(op, ast.Eq):
+                    return lv == rv
+                if isinstance(op, ast.NotEq):
+                    return lv != rv
+                if isinstance(op, ast.Lt):
+                    return lv < rv
+                if isinstance(op, ast.LtE):
+                    return lv <= rv
+                if isinstance(op, ast.Gt):
+                    return lv > rv
+                if isinstance(op, ast.GtE):
+                    return lv >= rv
+            except TypeError:
+                return None
+        return None
+
+    def val(self, e, env):
+        """(value,) or None"""
+        if isinstance(e, ast.Constant):
+            return (e.value,)
+        if isinstance(e, ast.UnaryOp) and isinstance(e.op, ast.USub) and isinstance(e.operand, ast.Constant):
+            return (-e.operand.value,)
+        if isinstance(e, ast.Name):
+            v = env.get(e.id)
+            if v is not None and v != ('empty',):
+                return (v[1],)
+            return None
+        if isinstance(e, ast.Call) and isinstance(e.func, ast.Name) and e.func.id == 'len' and len(e.args) == 1 \
+                and isinstance(e.args[0], ast.Name):
+            v = env.get(e.args[0].id)
+            if v == ('empty',):
+                return (0,)
+            if v is not None and isinstance(v[1], str):
+                return (len(v[1]),)
+        return None
+
+    def kill(self, node, env):
+        for x in ast.walk(node):
+            if isinstance(x, ast.Name) and isinstance(x.ctx, ast.Store):
+                env.pop(x.id, None)
+            # in-place growth of a tracked empty list
+            if isinstance(x, ast.Call) and isinstance(x.func, ast.Attribute) and isinstance(x.func.value, ast.Name) \
+                    and x.func.attr in LIB['mutator_methods']:
+                env.pop(x.func.value.id, None)
+
+    def st(self, s, env, cnt):
+        C = self.CAP
+        if isinstance(s, (ast.FunctionDef, ast.ClassDef, ast.Pass, ast.Import, ast.ImportFrom, ast.Global, ast.Nonlocal)):
+            yield ('fall', env, cnt)
+        elif isinstance(s, ast.Return):
+            yield ('return', env, cnt)
+        elif isinstance(s, ast.Raise):
+            yield ('raise', env, cnt)
+        elif isinstance(s, ast.Break):
+            yield ('break', env, cnt)
+        elif isinstance(s, ast.Continue):
+            yield ('continue', env, cnt)
+        elif isinstance(s, ast.Assign):
+            n = self.nyields(s)
+            v = s.value
+            if len(s.targets) == 1 and isinstance(s.targets[0], ast.Name):
+                name = s.targets[0].id
+                if isinstance(v, ast.Constant):
+                    env[name] = ('c', v.value)
+                elif isinstance(v, ast.UnaryOp) and isinstance(v.op, ast.USub) and isinstance(v.operand, ast.Constant):
+                    env[name] = ('c', -v.operand.value)
+                elif isinstance(v, (ast.List, ast.Tuple)) and not v.elts:
+                    env[name] = ('empty',)
+                else:
+                    self.kill(s, env)
+            else:
+                self.kill(s, env)
+            yield ('fall', env, min(C, cnt + n))
+        elif isinstance(s, ast.If):
+            r = self.truth(s.test, env)
+            key = {(frozenset(env.items()), cnt)}
+            for branch, taken in ((s.body, r is not False), (s.orelse, r is not True)):
+                if not taken:
+                    continue
+                res = self.blk(branch, key)
+                for k, sts in res.items():
+                    for (e2, c2) in sts:
+                        yield (k, dict(e2), c2)
+        elif isinstance(s, (ast.For, ast.While)):
+            seen = set()
+            todo = [(frozenset(env.items()), cnt)]
+            exits = []
+            const_true = isinstance(s, ast.While) and self.truth(s.test, env) is True and isinstance(s.test, ast.Constant)
+            while todo:
+                stt = todo.pop()
+                if stt in seen:
+                    continue
+                seen.add(stt)
+                e0 = dict(stt[0])
+                if isinstance(s, ast.While):
+                    r = self.truth(s.test, e0)
+                else:
+                    r = None
+                    self.kill(s.target, e0)
+                if r is not True and not const_true:
+                    exits.append(('fall', dict(stt[0]), stt[1]))
+                if r is False:
+                    continue
+                res = self.blk(s.body, {(frozenset(e0.items()), stt[1])})
+                for st2 in res['fall'] | res['continue']:
+                    todo.append(st2)
+                for st2 in res['break']:
+                    exits.append(('fall', dict(st2[0]), st2[1]))
+                for st2 in res['return']:
+                    exits.append(('return', dict(st2[0]), st2[1]))
+                if len(seen) > 400:
+                    exits.append(('fall', {}, 0))
+                    break
+            for x in exits:
+                yield x
+        elif isinstance(s, ast.Try):
+            key = {(frozenset(env.items()), cnt)}
+            res = self.blk(s.body, key)
+            outs = []
+            for k, sts in res.items():
+                for (e2, c2) in sts:
+                    outs.append((k, dict(e2), c2))
+            if s.handlers:
+                e1 = dict(env)
+                for b in s.body:
+                    self.kill(b, e1)
+                for h in s.handlers:
+                    r2 = self.blk(h.body, {(frozenset(e1.items()), cnt)})
+                    for k, sts in r2.items():
+                        for (e2, c2) in sts:
+                            outs.append((k, dict(e2), c2))
+            for (k, e2, c2) in outs:
+                if s.finalbody and k == 'fall':
+                    r3 = self.blk(s.finalbody, {(frozenset(e2.items()), c2)})
+                    for k3, sts in r3.items():
+                        for (e3, c3) in sts:
+                            yield (k3, dict(e3), c3)
+                else:
+                    yield (k, e2, c2)
+        elif isinstance(s, ast.With):
+            res = self.blk(s.body, {(frozenset(env.items()), cnt)})
+            for k, sts in res.items():
+                for (e2, c2) in sts:
+                    yield (k, dict(e2), c2)
+        else:
+            n = self.nyields(s)
+            self.kill(s, env)
+            yield ('fall', env, min(C, cnt + n))
+
+
+# ==================================================================================================
+# whole-repository analysis
+# ==================================================================================================
+class Analyzer:
+    def __init__(self, root):
+        self.t0 = time.time()
+        self.ix = Index(root)
+        for ci in self.ix.classes.values():
+            exts = self.ix.ext_bases(ci)
+            if self.ix.is_exception_class(ci):
+                b = ci.bases[0]
+                EXC_PARENT[ci.name] = b.name if isinstance(b, ClassInfo) else b[1].split('.')[-1]
+        self.summ = {}
+        self.overlay = None
+        self.ctx_actions = None
+        self.ctx_validators = None
+        self.lambdas = {}
+        self.lib_seen = set()
+        self.lib_default = set()
+        self.unknown_calls = {}
+        self.global_taint = {}
+        self.global_readers = {}
+        self._my = {}
+        self._ctx_cache = {}
+        self.rounds = 0
+        self.callers = {}
+        self.solve(list(self.ix.funcs.values()))
+        self.base_time = time.time() - self.t0
+
+    def note_unknown(self, fid, label):
+        self.unknown_calls.setdefault(fid, set()).add(label)
+
+    def summary(self, g):
+        if self.overlay is not None and g.fid in self.overlay:
+            return self.overlay[g.fid]
+        return self.summ.get(g.fid, BOTTOM)
+
+    def min_yields(self, g):
+        if g.fid not in self._my:
+            try:
+                self._my[g.fid] = YieldPaths(g).run()
+            except RecursionError:
+                self._my[g.fid] = 0
+        return self._my[g.fid]
+
+    def global_av(self, interp, mi, name, node):
+        key = (mi.dotted, name)
+        interp.S.callees.add('global:{}:{}'.format(*key))
+        for (src, origin), w in self.global_taint.get(key, {}).items():
+            interp.nondet(src, origin, (interp.site(node, 'reads module global {}.{} <- {}'.format(
+                mi.dotted, name, interp.ix.line(interp.cur.rel, node.lineno)[:60])),) + tuple(w))
+        tags = set()
+        for v in mi.assigns.get(name, []):
+            for x in ast.walk(v):
+                if isinstance(x, ast.Name):
+                    r = self.ix.resolve_global(mi, x.id)
+                    if r and r[0] == 'func' and isinstance(v, (ast.Dict, ast.List, ast.Tuple)):
+                        tags.add('func:' + r[1].fid)
+            if isinstance(v, ast.Dict):
+                tags |= {'dict', 'dictlit'}
+            elif isinstance(v, ast.Call):
+                r = self.ix.resolve_expr_static(mi.init_fi, v.func)
+                if r and r[0] == 'class':
+                    tags.add('cls:' + r[1].cid)
+        return AV({(('g', '{}:{}'.format(*key)), ())}, tags)
+
+    def analyze(self, fi):
+        it = Interp(self, fi)
+        if fi.is_module:
+            return self.analyze_module(it)
+        return it.run()
+
+    def analyze_module(self, it):
+        """module body: also records which module globals are computed from nondeterministic sources"""
+        fi = it.fi
+        for s in fi.node.body:
+            if it.st is None:
+                break
+            before = set(it.S.nondet)
+            it.stmt(s)
+            new = set(it.S.nondet) - before
+            if new and isinstance(s, (ast.Assign, ast.AugAssign, ast.AnnAssign)):
+                tgts = s.targets if isinstance(s, ast.Assign) else [s.target]
+                for t in tgts:
+                    while isinstance(t, (ast.Subscript, ast.Attribute)):
+                        t = t.value
+                    if isinstance(t, ast.Name):
+                        d = self.global_taint.setdefault((fi.mod.dotted, t.id), {})
+                        for k in new:
+                            if k not in d:
+                                d[k] = it.S.nondet[k]
+                                self._taint_changed.add((fi.mod.dotted, t.id))
+        it.finish()
+        return it.S
+
+    def solve(self, funcs):
+        self._taint_changed = set()
+        queue = list(funcs)
+        inq = set(f.fid for f in queue)
+        store = self.overlay if self.overlay is not None else self.summ
+        n = 0
+        while queue:
+            f = queue.pop(0)
+            inq.discard(f.fid)
+            n += 1
+            if n > 60000:
+                raise RuntimeError('effects: fixpoint does not converge')
+            old = store.get(f.fid) or (self.summ.get(f.fid) if self.overlay is not None else None)
+            new = self.analyze(f)
+            for c in new.callees:
+                self.callers.setdefault(c, set()).add(f.fid)
+            store[f.fid] = new
+            changed = old is None or old.key() != new.key()
+            requeue = set()
+            if changed:
+                requeue |= self.callers.get(f.fid, set())
+            for k in self._taint_changed:
+                requeue |= self.callers.get('global:{}:{}'.format(*k), set())
+            self._taint_changed = set()
+            for fid in requeue:
+                if fid not in inq and fid in self.ix.funcs:
+                    inq.add(fid)
+                    queue.append(self.ix.funcs[fid])
+        self.rounds += n
+
+    # ---- argparse contexts -----------------------------------------------------------------------
+    def context(self, actions, validators):
+        """summaries recomputed with parse_args running exactly these Action classes / validators"""
+        key = (frozenset(actions), frozenset(validators))
+        if key not in self._ctx_cache:
+            self.overlay = {}
+            self.ctx_actions, self.ctx_validators = set(actions), set(validators)
+            todo = [self.ix.funcs[fid] for fid, s in self.summ.items() if s.calls_parse_args and fid in self.ix.funcs]
+            self.solve(todo)
+            self._ctx_cache[key] = self.overlay
+            self.overlay = None
+            self.ctx_actions = self.ctx_validators = None
+        return self._ctx_cache[key]
+
+    def entry_summary(self, fi):
+        base = self.summ[fi.fid]
+        acts = {a for a in base.registers if not a.startswith('?')}
+        ov = self.context(acts, base.validators)
+        return ov.get(fi.fid, base), acts
+
+    def all_actions(self):
+        acts, vals = set(), set()
+        for s in self.summ.values():
+            acts |= {a for a in s.registers if not a.startswith('?')}
+            vals |= s.validators
+        return acts, vals
+
+    def func_at(self, rel, line):
+        best = None
+        for fi in self.ix.funcs.values():
+            if fi.rel == rel and not fi.is_module:
+                n = fi.node
+                if n.lineno <= line <= (n.end_lineno or n.lineno):
+                    if best is None or n.lineno >= best.node.lineno:
+                        best = fi
+        if best is None and rel in self.ix.by_rel:
+            return self.ix.by_rel[rel].init_fi
+        return best
+
+
+# ==================================================================================================
+# contracts -> obligations
+# ==================================================================================================
+class Obligation:
+    def __init__(self, contract, fi, clause):
+        self.contract, self.fi, self.clause = contract, fi, clause
+        self.verdict = 'discharged'
+        self.failures = []      # (key, what, witness)
+        self.assumed = []       # text
+
+    @property
+    def function(self):
+        return self.fi.fid
+
+
+def select_functions(A, sel):
+    ix = A.ix
+    out = []
+    excl = set(sel.get('exclude', []))
+    if 'functions' in sel:
+        for fid in sel['functions']:
+            if fid not in ix.funcs:
+                raise RuntimeError('effects vacuity guard: contracted function not found in the tree: ' + fid)
+            out.append(ix.funcs[fid])
+    if 'files' in sel:
+        pats = sel['files'] if isinstance(sel['files'], list) else [sel['files']]
+        for mi in ix.mods.values():
+            if not any(fnmatch.fnmatchcase(mi.rel, p) for p in pats):
+                continue
+            for name, fi in sorted(mi.funcs.items()):
+                if fi.fid in excl:
+                    continue
+                if sel.get('public') and name.startswith('_'):
+                    continue
+                if 'with_param' in sel and sel['with_param'] not in fi.params:
+                    continue
+                if 'prefix' in sel and not any(name.startswith(p) for p in sel['prefix']):
+                    continue
+                out.append(fi)
+    if 'class_methods' in sel:
+        ci = ix.classes.get(sel['class_methods'])
+        if ci is None:
+            raise RuntimeError('effects vacuity guard: contracted class not found: ' + sel['class_methods'])
+        for name, fi in sorted(ci.methods.items()):
+            if 'with_param' in sel and sel['with_param'] not in fi.params:
+                continue
+            out.append(fi)
+    if sel.get('argparse_validators'):
+        _, vals = A.all_actions()
+        out += [ix.funcs[f] for f in sorted(vals) if f in ix.funcs]
+    if sel.get('argparse_actions'):
+        acts, _ = A.all_actions()
+        for cid in sorted(acts):
+            m = ix.lookup_method(ix.classes[cid], '__call__')
+            if m is not None:
+                out.append(m)
+    return out
+
+
+def _short(fi):
+    return fi.qual if fi.qual != 'cli' and fi.qual != 'main' else os.path.basename(fi.rel)[:-3] + '.' + fi.qual
+
+
+def _waived(fi, kind, what, A):
+    src = ast.get_source_segment(fi.mod.src, fi.node) or '' if not fi.is_module else fi.mod.src
+    for (fpat, k, wpat, anchor, reason) in EC.WAIVERS:
+        if k == kind and fnmatch.fnmatchcase(fi.fid, fpat) and fnmatch.fnmatchcase(what, wpat):
+            # the anchor may live in the function that holds the offending statement
+            if anchor in src or any(anchor in m.src for m in A.ix.mods.values() if anchor and anchor in m.src):
+                return reason
+    return None
+
+
+def seed_option_type(A, fi):
+    """argparse type= of the --seed option of the tool that `fi` belongs to"""
+    for x in ast.walk(fi.mod.tree):
+        if isinstance(x, ast.Call) and isinstance(x.func, ast.Attribute) and x.func.attr == 'add_argument':
+            if any(isinstance(a, ast.Constant) and a.value == '--seed' for a in x.args):
+                for k in x.keywords:
+                    if k.arg == 'type':
+                        return ast.unparse(k.value)
+                return 'str'
+    return None
+
+
+def check_contract(A, c):
+    funcs = select_functions(A, c['select'])
+    if len(funcs) < c.get('min_functions', 1):
+        raise RuntimeError('effects vacuity guard: contract {} selects {} functions, expected at least {}'.format(
+            c['id'], len(funcs), c['min_functions']))
+    kind = c['kind']
+    obs = []
+    contracted_nondet = None
+    for fi in funcs:
+        ob = Obligation(c, fi, c['clause'])
+        obs.append(ob)
+        if c.get('entry'):
+            S, acts = A.entry_summary(fi)
+            unresolved = [a for a in A.summ[fi.fid].registers if a.startswith('?')]
+            if unresolved:
+                raise RuntimeError('effects: argparse action expression not resolved: {}'.format(unresolved))
+        elif c.get('entry_all'):
+            acts, vals = A.all_actions()
+            ov = A.context(acts, vals)
+            S = ov.get(fi.fid, A.summ[fi.fid])
+        else:
+            S = A.summ[fi.fid]
+        name = _short(fi)
+
+        def fail(kindname, what, text, witness):
+            reason = _waived(fi, kindname, what, A)
+            if reason:
+                ob.assumed.append('WAIVED {}: {}'.format(what, reason))
+                return
+            ob.verdict = 'failed'
+            ob.failures.append(('effect:{}:{}:{}'.format(kindname, name, what), text, list(witness)))
+
+        if kind in ('frame', 'frame-only'):
+            ps = c.get('params', '*')
+            for (p, path), w in sorted(S.mut.items(), key=lambda kv: (kv[0][0], len(kv[0][1]), str(kv[0][1]))):
+                if kind == 'frame':
+                    if ps == '*':
+                        if fi.kind == 'method' and fi.params and p == fi.params[0]:
+                            continue
+                    elif ps == '*nonself':
+                        if fi.params and p == fi.params[0]:
+                            continue
+                    elif p not in ps:
+                        continue
+                else:
+                    if (p, tuple(path)) in [(x[0], tuple(x[1])) for x in c['allowed']]:
+                        continue
+                if any(f[0].endswith(':' + p) for f in ob.failures):
+                    continue
+                loc = 'the argument object itself' if not path else 'the object ' + pshow(p, path)
+                extra = ''
+                if p in getattr(S, 'mutable_default', ()):
+                    extra = ' (and `{}` has a mutable default value shared between calls)'.format(p)
+                fail('frame', p, '{} may mutate its argument `{}`: {}{}'.format(fi.qual, p, loc, extra), w)
+        elif kind == 'rng-guard':
+            if not S.seeds_rng:
+                fail('rng', 'never-seeds', '{} never calls random.seed'.format(name), ())
+            ty = seed_option_type(A, fi)
+            for (line, exact, txt, site) in S.guards:
+                if not exact:
+                    if ty == 'int':
+                        fail('rng', 'seed-guard-skips-0',
+                             'random.seed is guarded by the truth value `{}` and --seed has type=int: seed 0 is given but never seeds'.format(txt),
+                             (site,))
+                    else:
+                        ob.assumed.append('truthiness guard `{}` on a type={} seed skips only the empty string (not an integer seed)'.format(txt, ty))
+        elif kind == 'rng-dominance':
+            for label, w in sorted(S.unseeded.items()):
+                fail('rng', 'unseeded-use@' + label.split('.')[-1],
+                     'a call that may use the RNG ({}) is not dominated by random.seed(seed)'.format(label), w)
+            if c.get('require_exact_guard'):
+                for (line, exact, txt, site) in S.guards:
+                    if not exact:
+                        fail('rng', 'seed-guard-skips-0', 'random.seed guarded by the truth value `{}`: seed 0 never seeds'.format(txt), (site,))
+                if S.uses_rng and not S.seeds_rng:
+                    fail('rng', 'never-seeds', 'has a seed parameter, uses the RNG, never seeds', S.uses_rng)
+        elif kind == 'nondet':
+            if contracted_nondet is None:
+                contracted_nondet = set()
+                for c2 in EC.EFFECT_CONTRACTS:
+                    if c2['kind'] == 'nondet':
+                        contracted_nondet |= {f.fid for f in select_functions(A, c2['select'])}
+            for (src, origin), w in sorted(S.nondet.items()):
+                through = None
+                for line in w[1:] if len(w) > 1 else ():
+                    try:
+                        rel, ln = line.split(':')[0], int(line.split(':')[1])
+                    except (ValueError, IndexError):
+                        continue
+                    g = A.func_at(rel, ln)
+                    if g is not None and g.fid != fi.fid and g.fid in contracted_nondet:
+                        through = g
+                        break
+                if through is not None:
+                    ob.assumed.append('{} via {} (charged to the contract of {})'.format(src, through.qual, through.qual))
+                    continue
+                fail('nondet', src.replace(':', '-'), 'result depends on the nondeterministic source {}'.format(src), w)
+        elif kind in ('raises-only', 'escape-main'):
+            allowed = c['allowed']
+            nassert = 0
+            for (exc, origin, tag), w in sorted(S.raises.items()):
+                if any(exc_is_sub(exc, a) for a in allowed):
+                    continue
+                oq = origin.split(':')[-1]
+                if tag == 'assert':
+                    nassert += 1
+                    continue
+                if tag == 'typeguard':
+                    ob.assumed.append('type-guard TypeError in {} (NARROWED: type guards)'.format(oq))
+                    continue
+                if tag == 'abstract':
+                    ob.assumed.append('abstract method {} (NARROWED: abstract methods)'.format(oq))
+                    continue
+                fail('raises', '{}@{}'.format(exc, oq), '{} may leave {} (raised in {})'.format(exc, name, oq), w)
+            if nassert:
+                ob.assumed.append('{} reachable assert statement(s) assumed to hold (NARROWED: assert)'.format(nassert))
+        elif kind == 'tempfile':
+            for v, w in sorted(S.tmp_leaks.items()):
+                fail('tempfile', v, 'temporary file `{}` (delete=False) is not unlinked on every exit'.format(v), w)
+        elif kind == 'defassign':
+            for v, w in sorted(S.unbound.items()):
+                fail('unbound', v, 'local `{}` is not definitely assigned before use'.format(v), w)
+        else:
+            raise RuntimeError('effects: unknown contract kind ' + kind)
+    return obs
+
+
+_ANALYZERS = {}
+
+
+def get_analyzer(root):
+    """one analysis per process and repository root (the four properties share it)"""
+    root = os.path.abspath(root)
+    if root not in _ANALYZERS:
+        _ANALYZERS[root] = Analyzer(root)
+    return _ANALYZERS[root]
+
+
+def run_property(root, prop):
+    A = get_analyzer(root)
+    obs = []
+    for c in EC.EFFECT_CONTRACTS:
+        if c['prop'] == prop:
+            obs += check_contract(A, c)
+    if not obs:
+        raise RuntimeError('effects vacuity guard: zero obligations for ' + prop)
+    return A, obs
+
+
+def assumptions(A):
+    out = ['effects mode: flow-sensitive, value-insensitive abstract interpretation of the real AST; over-approximates '
+           '(a failing obligation is a candidate until reproduced natively)']
+    out.append('LIBRARY table contracts/effects_contracts.py: {} mutator methods, {} mutator functions, {} raising callees, '
+               '{} rng, {} nondeterministic sources, {} exception bases'.format(
+                   len(LIB['mutator_methods']), len(LIB['mutator_functions']), len(LIB['raises']),
+                   len(LIB['rng_use']) + len(LIB['rng_seed']), len(LIB['nondet']), len(LIB['exception_bases'])))
+    out.append('library callees met without a table entry (assumed: no mutation of arguments, no exception, no RNG, '
+               'result may contain the arguments): {}'.format(', '.join(sorted(A.lib_default))[:1500]))
+    out.append('calls through function-valued parameters / untyped callables are charged to the caller that passes the function: {} sites'.format(
+        sum(len(v) for v in A.unknown_calls.values())))
+    for (p, t, txt) in EC.NARROWED:
+        out.append('NARROWED {} [{}]: {}'.format(p, t, txt))
+    return out
